@@ -108,7 +108,12 @@ def run_replay(prop, body):
   env = dict(os.environ); env['PYTHONPATH'] = REPO; env.pop('PYMTL3_VERIF', None)
   try:
     with tempfile.TemporaryDirectory(prefix='verif_replay_') as td:
-      r = subprocess.run([PY, path], cwd=td, env=env, capture_output=True, text=True, timeout=600)
+      py = PY
+      if '_tvreplay' in body or 'import z3' in body:      # replays that need the svsem oracle run under the overlay venv (same pristine pymtl3)
+        py = os.path.join(os.environ.get('VERIF_VENV', os.path.join(VERIF, '.venv')), 'bin', 'python')
+        if not os.path.exists(py): py = sys.executable
+      env['VERIF_SCRATCH'] = td
+      r = subprocess.run([py, path], cwd=td, env=env, capture_output=True, text=True, timeout=600)
   except subprocess.TimeoutExpired:
     return path, None, 'replay timed out'
   outp = (r.stdout + r.stderr)[-2000:]
